@@ -101,6 +101,8 @@ class Sched:
         self.abort = None  # None | "deadlock" | "budget"
         self.abort_steps = 0
         self.parked = 0
+        self.watch_names = frozenset()
+        self.inside_watched = 0
         self.done_evt = threading.Event()
         self._code_cache = {}
         self.counters = {}
@@ -152,14 +154,24 @@ class Sched:
     def _make_tracer(self, tid):
         sched = self
 
+        watch = self.watch_names
+
         def local(frame, event, _arg):
             if event == "opcode":
                 sched.yp(tid, "op", frame)
+            elif event == "return" and frame.f_code.co_name in watch and not (frame.f_code.co_flags & 0x20):
+                sched.inside_watched -= 1
             return local
 
         def glob(frame, event, _arg):
             if event == "call" and sched._traced(frame.f_code):
                 frame.f_trace_opcodes = True
+                if frame.f_code.co_name in watch and not (frame.f_code.co_flags & 0x20):
+                    # white-box probe only (never a verdict): how many threads are inside the
+                    # watched functions at once
+                    sched.inside_watched += 1
+                    if sched.inside_watched > 1:
+                        sched.count("two_threads_inside_watched_function")
                 return local
             return None
 
